@@ -303,6 +303,8 @@ type globalScan struct {
 	// their uses (flow-insensitively) and reports everything, writes included, as an escape "via local x"
 	localAlias map[*types.Var][]string
 	viaLocal   bool
+	ownName    string // the package-level variable whose initialiser is being scanned
+	onlyWrites bool
 }
 
 func (s *globalScan) file(f *ast.File) {
@@ -325,14 +327,19 @@ func (s *globalScan) file(f *ast.File) {
 			for _, sp := range d.Specs {
 				vs := sp.(*ast.ValueSpec)
 				s.own = map[*types.Var]bool{}
+				s.ownName = ""
 				for _, n := range vs.Names {
 					if v, ok := s.info.Defs[n].(*types.Var); ok {
 						s.own[v] = true
+						if s.ownName == "" {
+							s.ownName = s.isGlobal[v]
+						}
 					}
 				}
 				for _, val := range vs.Values {
 					s.walk(val, []ast.Node{d, vs})
 				}
+				s.ownName = ""
 			}
 		}
 	}
@@ -358,6 +365,24 @@ func (s *globalScan) walk(n ast.Node, stack []ast.Node) {
 						}
 					}
 					s.use(name, "", cur, anc)
+				}
+			}
+		}
+		// state hidden in a closure: inside the initialiser of a package-level variable, a function literal
+		// that writes a variable declared OUTSIDE itself (but inside the initialiser) keeps mutable state
+		// that lives as long as the package (`var lookup = func() func(..) { m := map..; return func(..) { m[k] = v } }()`)
+		if id, ok := x.(*ast.Ident); ok && s.pass == 1 && s.ownName != "" {
+			if v, ok := s.info.Uses[id].(*types.Var); ok && !v.IsField() {
+				if _, isG := s.isGlobal[v]; !isG {
+					var lit *ast.FuncLit
+					for k := len(st) - 1; k >= 0 && lit == nil; k-- {
+						lit, _ = st[k].(*ast.FuncLit)
+					}
+					if lit != nil && (v.Pos() < lit.Pos() || v.Pos() > lit.End()) {
+						s.onlyWrites = true
+						s.use(s.ownName, "closure state "+id.Name+": ", id, st)
+						s.onlyWrites = false
+					}
 				}
 			}
 		}
@@ -433,6 +458,9 @@ func (s *globalScan) use(name, via string, start ast.Expr, st []ast.Node) {
 		s.res.Writes = append(s.res.Writes, gUse{name, via + how, pos})
 	}
 	escape := func(how string) {
+		if s.onlyWrites {
+			return
+		}
 		if how == "alias:return" && s.curFunc != nil {
 			// a function that hands out the variable's memory: its callers are scanned in pass 2
 			if sig, ok := s.curFunc.Type().(*types.Signature); ok && sig.Results().Len() == 1 {
